@@ -242,6 +242,10 @@ pub fn check_captures(prop: &str, case: &AstCase, ctx: &mut Ctx) -> Verdict {
                 if o.cutoff {
                     regions.push("force_progress_cutoff");
                 }
+                if m.node.backref_to_group_in_fixed_loop() {
+                    // the engine may have taken another path than the ordered-choice one (same span, other captures)
+                    regions.push("backref_to_group_in_fixed_length_loop");
+                }
                 if let Some(id) = ctx.known.attribute(prop, &regions, symptom) {
                     known_hit = Some(id);
                     continue;
